@@ -286,7 +286,8 @@ namespace vf
     else if ((f[0] == "F" || f[0] == "X") && f.size() == 5)
     {
       Finding &x = k.findings[unesc(f[1])];
-      if (x.count == 0 || (x.first_case.empty() && !f[3].empty()))
+      // keep the shortest witness seen (enumeration is simplest-first inside a unit, not across workers)
+      if (x.count == 0 || (x.first_case.empty() && !f[3].empty()) || (!f[3].empty() && f[3].size() < x.first_case.size()))
       {
         x.first_case = unesc(f[3]);
         x.msg = unesc(f[4]);
